@@ -6,12 +6,20 @@ import AsynqModel.Core.Syntax
     asynq/asynq_to_async.py : is_asyncio_mode, _gather, resolve_awaitables, AsyncioMode
     asynq/decorators.py     : convert_asynq_to_async, PureAsyncDecorator.asyncio / _call_pure,
                               AsyncDecorator.__call__ / asynq, AsyncProxyDecorator.asyncio / _call_pure
-  and compares them with the reference evaluation ("what fn(args) gives": sequential depth-first evaluation
-  of the task tree with asynq's `unwrap` rule, asynq/async_task.py `_continue` / `unwrap`).
+  and compares them with the reference evaluation `bodyR` / `ysR` of THIS file ("what fn(args) gives": sequential
+  depth-first evaluation of the task tree with asynq's `extract_futures` / `unwrap` rules, asynq/async_task.py `_continue`).
+  The reference is tied to the real `fn(args)` and `fn.asynq(args).value()` by the correspondence check (conventions `call`
+  and `value` of harness/checks/c15.py); there is no theorem linking it to `Core.Seq` (only `Core.Syntax.Val` is imported).
 
   Programs are BATCH-FREE and TREE-SHAPED: every future that is yielded is created in the yield itself
-  (a child task, a ConstFuture, None, a non-future, or a nested tuple/list/dict of those).  The same
+  (a child task, a ConstFuture, None, a non-future, a nested tuple/list/dict of those, an instance of a SUBCLASS of
+  tuple/list/dict, the result of an async_proxy function that returns a future / None / a container).  The same
   syntax is interpreted on the real library by harness/checks/c15.py.
+
+  The code as it is makes the two engines differ in three places, all modelled as they are (Theorems/C15.lean section B):
+  BaseException-only errors of awaited children (`except Exception` in convert_asynq_to_async), container subclasses
+  (`isinstance` in resolve_awaitables vs `type(..) is` in unwrap / extract_futures), async_proxy functions returning a
+  non-future (`await fut` in unwrap_coroutine).
 
   Trusted / assumed (DESIGN.md 5.C15 L): the asyncio event loop (`await x` = run x to completion,
   `ensure_future` runs the coroutine in a COPY of the current contextvars context, `asyncio.wait(ALL_COMPLETED)`
@@ -97,6 +105,10 @@ inductive Ys where
   | tup (l : YsL)
   | lst (l : YsL)
   | dict (ks : List Nat) (l : YsL)
+  | sub (y : Ys)               -- the container y (tup / lst / dict) as an instance of a strict SUBCLASS of tuple / list / dict
+                               --   (a namedtuple, an OrderedDict): `type(v) is tuple` vs `isinstance(x, tuple)`
+  | pval (y : Ys)              -- pval_fn.asynq() of an @async_proxy() function that RETURNS the object y (None or a
+                               --   tuple / list / dict of futures) instead of one future
 inductive YsL where
   | nil
   | cons (y : Ys) (l : YsL)
@@ -137,23 +149,47 @@ def isFin (t : Nat) : Ev → Bool
 def St.finished (s : St) (t : Nat) : Bool := s.log.any (isFin t)
 
 mutual
-/-- labels of the tasks yielded together in one structure -/
-def Ys.labels : Ys → List Nat
+/-- labels of the tasks yielded together in one structure that the ASYNQ scheduler takes as futures to compute
+    (`extract_futures`, async_task.py: `type(value) is tuple or type(value) is list`, `type(value) is dict` - an instance of a
+    subclass is skipped, so nothing inside it is ever scheduled; what an async_proxy function returned is the yielded object) -/
+def Ys.labelsR : Ys → List Nat
   | .none => []
   | .junk => []
   | .const _ => []
   | .pconst _ => []
   | .task c _ => [c.label]
-  | .tup l => YsL.labels l
-  | .lst l => YsL.labels l
-  | .dict _ l => YsL.labels l
-def YsL.labels : YsL → List Nat
+  | .tup l => YsL.labelsR l
+  | .lst l => YsL.labelsR l
+  | .dict _ l => YsL.labelsR l
+  | .sub _ => []
+  | .pval y => Ys.labelsR y
+def YsL.labelsR : YsL → List Nat
   | .nil => []
-  | .cons y l => Ys.labels y ++ YsL.labels l
+  | .cons y l => Ys.labelsR y ++ YsL.labelsR l
 end
 
-/-- "all awaitables yielded together have completed" as the harness evaluates it when the yield returns -/
-def St.dc (s : St) (y : Ys) : Bool := (Ys.labels y).all s.finished
+mutual
+/-- the same for `resolve_awaitables` (asynq_to_async.py: `isinstance(x, list)` ... - a subclass instance is resolved like
+    its base class; the object an async_proxy function returned is never looked into: `await fut` of `unwrap_coroutine`) -/
+def Ys.labelsA : Ys → List Nat
+  | .none => []
+  | .junk => []
+  | .const _ => []
+  | .pconst _ => []
+  | .task c _ => [c.label]
+  | .tup l => YsL.labelsA l
+  | .lst l => YsL.labelsA l
+  | .dict _ l => YsL.labelsA l
+  | .sub y => Ys.labelsA y
+  | .pval _ => []
+def YsL.labelsA : YsL → List Nat
+  | .nil => []
+  | .cons y l => Ys.labelsA y ++ YsL.labelsA l
+end
+
+/-- "all awaitables yielded together have completed" as the harness evaluates it when the yield returns: every task of
+    `labs` (the tasks of the structure that the engine took as awaitables) has logged its end -/
+def St.dc (s : St) (labs : List Nat) : Bool := labs.all s.finished
 
 /-- outcome of a list of sub-structures -/
 inductive OutL where
@@ -213,7 +249,7 @@ def bodyR (gen : Bool) (t : Nat) (env : List Val) (caught : Option Err) (i : Nat
       (o, s.emit (.fin t o))
     else
       let (r, s1) := ysR y s      -- dependencies computed, then `unwrap(self._last_value)`
-      let d := s1.dc y
+      let d := s1.dc (Ys.labelsR y)
       match r with
       | .ok v => bodyR gen t (env ++ [v]) caught (i + 1) k (s1.emit (.run t (i + 1) d s1.mode (.ok v)))   -- generator.send(value)
       | .err e =>
@@ -252,6 +288,9 @@ def ysR : Ys → St → Out × St
   | .tup l, s => let (r, s1) := yslR l s; (r.wrap .tup, s1)
   | .lst l, s => let (r, s1) := yslR l s; (r.wrap .lst, s1)
   | .dict ks l, s => let (r, s1) := yslR l s; (r.wrap (.dict ks), s1)
+  | .sub _, s => (.err .typeerr, s)            -- `type(value) is tuple` ... all fail: the final `raise TypeError("Cannot unwrap ...")`;
+                                               --   `extract_futures` skipped it too, so nothing inside it has run
+  | .pval y, s => ysR y s                      -- AsyncProxyDecorator._call_pure: `return self.fn(...)` = the object itself is yielded
 def yslR : YsL → St → OutL × St
   | .nil, s => (.ok [], s)
   | .cons y l, s =>
@@ -310,7 +349,7 @@ def bodyA (gen : Bool) (t : Nat) (env : List Val) (caught : Option Err) (i : Nat
       (o, s.emit (.fin t o))
     else
       let (r, s1) := resolveA y s      -- `send = await resolve_awaitables(result)`
-      let d := s1.dc y
+      let d := s1.dc (Ys.labelsA y)
       match r with
       | .ok v => bodyA gen t (env ++ [v]) caught (i + 1) k (s1.emit (.run t (i + 1) d s1.mode (.ok v)))   -- `exception = None`; generator.send(send)
       | .err e =>
@@ -355,6 +394,14 @@ def resolveA : Ys → St → Out × St
   | .dict ks l, s => let (r, s1) := gatherA l s; (r.wrap (.dict ks), s1) -- `_gather` over `x.values()`, zipped with `x.keys()`
   | .none, s => (.ok .none, s)          -- `if x is None: return None`
   | .junk, s => (.err .typeerr, s)      -- `raise TypeError("Unknown structured awaitable type: ", type(x))`
+  | .sub y, s => resolveA y s           -- `isinstance(x, list)` / `isinstance(x, tuple)` / `isinstance(x, dict)` hold for a subclass
+                                        --   instance: resolved like the base class (the result is a plain tuple / list / dict)
+  | .pval y, s =>
+    -- AsyncProxyDecorator.asyncio / unwrap_coroutine: `fut = await asyncio_fn(...)` (the function runs inside
+    -- `with AsyncioMode()`, the flag is restored); fut is neither a ConstFuture nor awaitable: `return await fut` raises
+    -- TypeError("object ... can't be used in 'await' expression"); the coroutines inside fut are never awaited
+    if s.mode then (.err .other, s)
+    else resolveA y s                   -- flag off: `self.fn(...)` = the object itself
 /-- `_gather(awaitables)`: every awaitable becomes a task (`ensure_future`: runs in a COPY of the context, so what it
     does to the flag is invisible here), `asyncio.wait(ALL_COMPLETED)`, then `[task.result() for task in tasks]` -/
 def gatherA : YsL → St → OutL × St
@@ -402,6 +449,8 @@ def shapeOk : Ys → Val → Bool
   | .tup _, _ => false
   | .lst _, _ => false
   | .dict _ _, _ => false
+  | .sub y, v => shapeOk y v
+  | .pval y, v => shapeOk y v
 def shapeOkL : YsL → List Val → Bool
   | .nil, [] => true
   | .cons y l, v :: vs => shapeOk y v && shapeOkL l vs
@@ -508,8 +557,66 @@ def isEsc : Out → Bool
   | .esc _ => true
   | _ => false
 
-/-- clauses about one way of running the program; `ref` = the outcome of `fn(args)` -/
-def specObs (ref : Out) (ob : Obs) : Except String Unit :=
+/-- What the two engines have to AGREE on, task by task: that the body started, what every yield delivered (the value with
+    its shape, or the exception), and how the task ended.  The flag seen, the `dc` bit, `afn` and `syncX` are judged by
+    the other clauses and are not part of the projection. -/
+inductive PEv where
+  | start (t : Nat)
+  | run (t i : Nat) (recv : Out)
+  | fin (t : Nat) (o : Out)
+  deriving Repr, DecidableEq, Inhabited
+
+def PEv.label : PEv → Nat
+  | .start t => t
+  | .run t _ _ => t
+  | .fin t _ => t
+
+def projEv : Ev → Option PEv
+  | .start t _ => some (.start t)
+  | .run t i _ _ r => some (.run t i r)
+  | .fin t o => some (.fin t o)
+  | _ => none
+
+/-- projection of a log on the start / run / fin events -/
+def proj (l : List Ev) : List PEv := l.filterMap projEv
+
+/-- `e` goes before the first event of a task with a label that is not smaller -/
+def insertP (e : PEv) : List PEv → List PEv
+  | [] => [e]
+  | x :: xs => if e.label ≤ x.label then e :: x :: xs else x :: insertP e xs
+
+/-- canonical per-task form: stable (insertion) sort by task label = the per-task sub-logs one after the other, each in its
+    own order (the interleaving of different tasks is the event loop's / the scheduler's business and is not compared) -/
+def canonP (l : List PEv) : List PEv := l.foldr insertP []
+
+def onTask (t : Nat) (l : List PEv) : List PEv := l.filter (fun e => e.label == t)
+
+/-- the part of a log (oldest first) before the first synchronous call (used by theorem `C15_deliveries_agree_partial` about
+    the MODEL only: where the first refusal falls relative to the events of OTHER tasks depends on how the event loop
+    interleaves sibling coroutines, so the observer `spec` does not read it) -/
+def cutSync (l : List Ev) : List Ev := l.takeWhile (fun e => !isSyncX e)
+
+/-- `e` goes before the first event of a task with a label that is not smaller -/
+def insertE (e : Ev) : List Ev → List Ev
+  | [] => [e]
+  | x :: xs => if e.label ≤ x.label then e :: x :: xs else x :: insertE e xs
+
+/-- canonical per-task form of a whole log (stable insertion sort by task label): what the correspondence check compares -
+    together with the first event of the log - between the model and the implementation (Drv/Asyncio.lean `diffObs`).
+    `spec` reads nothing of a log beyond that: theorem `C15_spec_respects_correspondence`. -/
+def canonE (l : List Ev) : List Ev := l.foldr insertE []
+
+/-- the run belongs to the outcome: the task whose event opens the log is the one that ends last of its label, and it ends
+    with the outcome the caller saw -/
+def rootOk (ob : Obs) : Bool :=
+  match ob.log with
+  | [] => false
+  | e0 :: _ => (ob.log.filter (fun e => e.label == e0.label)).getLast? == some (.fin e0.label ob.out)
+
+/-- clauses about one way of running the program; `ref` = the outcome of `fn(args)`, `refC` = `canonP` of the projection of its
+    log.  Of `ob.log` it reads: membership (`all` / `any`), the per-task sub-logs (`canonP (proj _)`, the filter of `rootOk`) and
+    the first event (`rootOk`) - never the relative order of events of different tasks. -/
+def specObs (ref : Out) (refC : List PEv) (ob : Obs) : Except String Unit :=
   if !ob.log.all noBad then .error "observation" else
   -- the flag is confined to the running coroutine: off before, off afterwards (on failure too), on inside
   if ob.before then .error "mode-before" else
@@ -521,19 +628,32 @@ def specObs (ref : Out) (ob : Obs) : Except String Unit :=
   if ob.conv.isAio then
     -- a plain synchronous call while the flag is on is refused
     if !ob.log.all syncRefusedOk then .error "sync-refused" else
-    -- same value / same exception as fn(args) (programs that attempt a synchronous call are refused instead)
-    if ob.log.any isSyncX then .ok () else
-    if ob.out == ref then .ok () else
-    if isEsc ob.out then .error "result-escapes" else .error "equiv"
+    -- AsyncTaskResult never leaves a computation
+    if isEsc ob.out then .error "result-escapes" else
+    if ob.log.any isSyncX then
+      -- the run attempted a synchronous call and was refused: from there on it legitimately differs from fn(args), and WHERE
+      -- "there" is relative to the events of other tasks is the event loop's business; what remains is that the outcome is
+      -- the one the root task ended with
+      if !rootOk ob then .error "root-outcome" else .ok ()
+    else
+      -- same value / same exception as fn(args) ...
+      if ob.out != ref then .error "equiv" else
+      -- ... and the same in EVERY task: same values (with their shapes) and same exceptions delivered at every yield (so the
+      -- failure raised at a yield is the one fn(args) raises there: the first in structure order), same end of every task
+      if canonP (proj ob.log) != refC then .error "deliveries" else
+      if !rootOk ob then .error "root-outcome" else .ok ()
   else
     if !ob.log.all syncAllowedOk then .error "sync-allowed" else
-    if ob.out == ref then .ok () else .error "conventions"
+    if isEsc ob.out then .error "result-escapes" else
+    if ob.out != ref then .error "conventions" else
+    if canonP (proj ob.log) != refC then .error "conventions-deliveries" else
+    if !rootOk ob then .error "root-outcome" else .ok ()
 
-def specList (ref : Out) : List Obs → Except String Unit
+def specList (ref : Out) (refC : List PEv) : List Obs → Except String Unit
   | [] => .ok ()
   | ob :: obs =>
-    match specObs ref ob with
-    | .ok () => specList ref obs
+    match specObs ref refC ob with
+    | .ok () => specList ref refC obs
     | .error e => .error e
 
 def convsPresent (obs : List Obs) : Bool := obs.map (·.conv) == allConvs
@@ -543,35 +663,25 @@ def specClause (obs : List Obs) : String :=
   match obs with
   | [] => "conventions-missing"
   | ob :: _ =>
-    match specList ob.out obs with
+    match specList ob.out (canonP (proj ob.log)) obs with
     | .ok () => "ok"
     | .error e => e
 
 /-- `Spec.C15` -/
 def spec (obs : List Obs) : Bool := specClause obs == "ok"
 
-/-! ## syntactic classes of programs -/
+/-- what the correspondence check compares of two observations of the same way of running (Drv/Asyncio.lean `diffObs`):
+    every field, the first event of the log and the canonical per-task form of the log -/
+def sameView (a b : Obs) : Bool :=
+  a.conv == b.conv && a.before == b.before && a.out == b.out && a.after == b.after && a.canary == b.canary &&
+  a.log.head? == b.log.head? && canonE a.log == canonE b.log
 
-mutual
-/-- no `asynq.result(...)` anywhere -/
-def Prog.noRes : Prog → Bool
-  | .ret _ => true
-  | .res _ => false
-  | .raise _ => true
-  | .raiseB _ => true
-  | .reraise => true
-  | .yld _ y k h => Ys.noRes y && Prog.noRes k && Prog.noRes h
-  | .sync _ child k h => Prog.noRes child && Prog.noRes k && Prog.noRes h
-def Ys.noRes : Ys → Bool
-  | .task _ p => Prog.noRes p
-  | .tup l => YsL.noRes l
-  | .lst l => YsL.noRes l
-  | .dict _ l => YsL.noRes l
-  | _ => true
-def YsL.noRes : YsL → Bool
-  | .nil => true
-  | .cons y l => Ys.noRes y && YsL.noRes l
-end
+def sameViews : List Obs → List Obs → Bool
+  | [], [] => true
+  | a :: as, b :: bs => sameView a b && sameViews as bs
+  | _, _ => false
+
+/-! ## syntactic classes of programs -/
 
 mutual
 /-- no plain synchronous call anywhere -/
@@ -584,6 +694,8 @@ def Ys.noSync : Ys → Bool
   | .tup l => YsL.noSync l
   | .lst l => YsL.noSync l
   | .dict _ l => YsL.noSync l
+  | .sub y => Ys.noSync y
+  | .pval y => Ys.noSync y
   | _ => true
 def YsL.noSync : YsL → Bool
   | .nil => true
@@ -601,6 +713,8 @@ def Ys.excOnly : Ys → Bool
   | .tup l => YsL.excOnly l
   | .lst l => YsL.excOnly l
   | .dict _ l => YsL.excOnly l
+  | .sub y => Ys.excOnly y
+  | .pval y => Ys.excOnly y
   | _ => true
 def YsL.excOnly : YsL → Bool
   | .nil => true
@@ -619,14 +733,36 @@ def Ys.noRaiseB : Ys → Bool
   | .tup l => YsL.noRaiseB l
   | .lst l => YsL.noRaiseB l
   | .dict _ l => YsL.noRaiseB l
+  | .sub y => Ys.noRaiseB y
+  | .pval y => Ys.noRaiseB y
   | _ => true
 def YsL.noRaiseB : YsL → Bool
   | .nil => true
   | .cons y l => Ys.noRaiseB y && YsL.noRaiseB l
 end
 
-/-- the side condition of the `_partial` theorems: no handler of the program catches BaseException, or the program
-    raises no BaseException-only error -/
+/-- the side condition of the `_partial` theorems about BaseException: no handler of the program catches BaseException, or
+    the program raises no BaseException-only error -/
 def Prog.safe (p : Prog) : Bool := p.excOnly || p.noRaiseB
+
+mutual
+/-- every yielded container is a plain tuple / list / dict (no instance of a subclass: `.sub`) and every async_proxy function
+    returns one future (no `.pval`): the second side condition of the `_partial` theorems -/
+def Prog.plainY : Prog → Bool
+  | .yld _ y k h => Ys.plainY y && Prog.plainY k && Prog.plainY h
+  | .sync _ child k h => Prog.plainY child && Prog.plainY k && Prog.plainY h
+  | _ => true
+def Ys.plainY : Ys → Bool
+  | .task _ p => Prog.plainY p
+  | .tup l => YsL.plainY l
+  | .lst l => YsL.plainY l
+  | .dict _ l => YsL.plainY l
+  | .sub _ => false
+  | .pval _ => false
+  | _ => true
+def YsL.plainY : YsL → Bool
+  | .nil => true
+  | .cons y l => Ys.plainY y && YsL.plainY l
+end
 
 end AsynqModel.Asyncio
